@@ -36,7 +36,7 @@ STREAMS = {
     "msgtype": {"n": {"quick": 1, "thorough": 1}, "nontrivial": None},
     "decode": {"n": {"quick": 4000, "thorough": 150000}, "nontrivial": nt_decode},
     "decode-enum": {"n": {"quick": 11, "thorough": 16}, "nontrivial": nt_decode},
-    "build": {"n": {"quick": 1200, "thorough": 20000}, "nontrivial": nt_build},
+    "build": {"n": {"quick": 500, "thorough": 20000}, "nontrivial": nt_build},
 }
 
 COMMON_TRUSTED = []
@@ -79,5 +79,48 @@ PROPS = {
         "rule": "every length structure (buffer length x declared length x attribute length fields incl. 0xFFFF and "
                 "+-1..3) up to the body bound is enumerated, plus random/mutated inputs with Get/Contains/ForEach "
                 "queries; non-trivial = reaches the size guard or attribute loop",
+    },
+    "C03": {
+        "modules": ["Stun.Properties.C03"],
+        "theorems": ["Stun.C03.build_canonical", "Stun.C03.op_preserves_canonical", "Stun.C03.writeHeader_preserves",
+                     "Stun.C03.writeLength_preserves", "Stun.C03.ops_canonical", "Stun.C03.canonical_wellformed",
+                     "Stun.C03.canonical_decode", "Stun.C03.equal_agrees", "Stun.BuildProofs.add_spec",
+                     "Stun.BuildProofs.canonical_add", "Stun.BuildProofs.integrity_canonical",
+                     "Stun.BuildProofs.fingerprint_canonical", "Stun.BuildProofs.writeHeader_spec"],
+        "streams": ["build"],
+        "tagsets": [["verif"], ["verif", "debug"]],
+        "level": "proof",
+        "rule": "random building sequences (Build with typed/integrity/fingerprint setters, WriteHeader, Encode, Add, "
+                "SetType, transaction-ID setters) from Build / WriteHeader / decoded starts, values of every residue "
+                "mod 4 up to 3000 bytes; after the steps the raw bytes are re-decoded by the library (CloneTo) and "
+                "compared with Equal in both directions; non-trivial = at least two attribute-adding operations of "
+                "different shape",
+        "explanation": "encode_canonical (Encode from a decoded, non-zero-padded message) is modelled and checked by "
+                       "correspondence only; its theorem is not proved yet (see DESIGN)",
+    },
+    "C08": {
+        "modules": ["Stun.Properties.C08"],
+        "theorems": ["Stun.C08.add_independent_of_spare", "Stun.C08.decodeFrom_independent",
+                     "Stun.C08.build_independent", "Stun.BuildProofs.setter_sameObs", "Stun.BuildProofs.add_spec"],
+        "streams": ["build", "decode"],
+        "level": "proof",
+        "rule": "sequences (previous use, next use) of decodes and builds of different sizes on message objects whose "
+                "buffers are pre-filled with a poison pattern; caller buffers are overwritten with 0xEE after every "
+                "Add/Build/Decode/Write/UnmarshalBinary/ReadFrom; the value-semantic model must still agree",
+        "assumptions": ["aliasing of caller memory cannot be stated in a value-semantic model: decided by the "
+                        "correspondence only"],
+    },
+    "C09": {
+        "modules": ["Stun.Properties.C09"],
+        "theorems": ["Stun.C09.text_accept_iff", "Stun.C09.text_reject_kind", "Stun.C09.ip_accept_iff",
+                     "Stun.C09.errorCode_reason_iff", "Stun.C09.errorCodeDefault_accept_iff",
+                     "Stun.C09.integrity_after_fp_refused", "Stun.C09.integrity_accepted_without_fp",
+                     "Stun.C09.setter_fail_atomic", "Stun.C09.build_first_error", "Stun.C09.checkOverflow_iff"],
+        "streams": ["build"],
+        "tagsets": [["verif"], ["verif", "debug"]],
+        "level": "proof",
+        "rule": "setters with values on both sides of every limit (text 0..limit+300, IP lengths 0..20, error codes "
+                "0..999, integrity after fingerprint) inside random building sequences; the full message state is "
+                "dumped after every call, failing or not",
     },
 }
